@@ -122,17 +122,18 @@ def run():
     with vf.scratch() as sd, ThreadPoolExecutor(max_workers=2) as side:
         with ThreadPoolExecutor(max_workers=3) as ex:
             fb = ex.submit(_build, sd)
-            # model checking that does not depend on the tree: lookup machine, negative controls, synthetic self-test of the contract
+            # model checking that does not depend on the tree: the lookup machine (with its negative control in the same run)
             f_mc = side.submit(vf.tlc, SPEC, "I18nTable_MC", "I18nTable_MC.cfg" if thorough else "I18nTable_MCq.cfg", sd,
-                               workers=2, timeout=900 * T, env=JVM)
-            controls = [("I18nTable_MC", "I18nTable_MC_nofallback.cfg", "Holds", "lookup without the English fallback"),
-                        ("I18nNeg_MC", "I18nNeg_MC_nocheck.cfg", "OnlyShipped", "negotiation returning the first candidate unchecked"),
-                        ("I18nNeg_MC", "I18nNeg_MC_fulltag.cfg", "OnlyShipped", "negotiation returning the whole tag")][:3 if thorough else 2]
-            f_neg = [side.submit(vf.tlc, SPEC, m, c, sd, workers=1, timeout=600, env=JVM) for m, c, _, _ in controls]
-            # 1. NegotiateLanguage as a machine, exhaustive over the header space; the same run prints every header
-            r = vf.tlc_ok(vf.tlc(SPEC, "I18nNeg_MC", "I18nNeg_MC.cfg" if thorough else "I18nNeg_MCq.cfg", sd,
-                                 workers=min(vf.NCPU, 6), timeout=2400 if thorough else 900, env=JVM, keep_stdout=False), "I18nNeg MC")
-            chk.add_tlc(r, "MC: NegotiateLanguage machine over every header (OnlyShipped, FunctionAgrees, BestQuality) + header emission")
+                               workers=1, timeout=900 * T, env=JVM)
+            # 1. NegotiateLanguage as a machine, exhaustive over the header space (negative controls in the same run);
+            #    the same run prints every header.  One worker: the controls are recorded with TLCSet.
+            r = vf.tlc(SPEC, "I18nNeg_MC", "I18nNeg_MC.cfg" if thorough else "I18nNeg_MCq.cfg", sd,
+                       workers=1, timeout=3000 if thorough else 900, env=JVM, keep_stdout=False)
+            if "ControlsBite" in (r.error or "") or "ControlsBite" in r.stdout[-3000:]:
+                raise vf.NoVerdict("negative control: a broken NegotiateLanguage (unchecked candidate / whole tag) did not violate OnlyShipped")
+            vf.tlc_ok(r, "I18nNeg MC")
+            chk.add_tlc(r, "MC: NegotiateLanguage machine over every header (OnlyShipped, FunctionAgrees, BestQuality), header emission; "
+                           "the two broken variants explored beside it both violate OnlyShipped (POSTCONDITION ControlsBite)")
             seen, hdrs = set(), []
             for x in r.records:
                 if isinstance(x, dict) and "items" in x:
@@ -238,13 +239,12 @@ def run():
         chk.cov["binding_selftest"] = ("3 corrupted copies of real records (one language's output altered, key replaced by an unknown one, "
                                        "reply 'de') and 9 defects of hand-made entries/keys merged into the judged table all flagged, nothing else about them flagged")
         # model-level runs
-        rm = vf.tlc_ok(f_mc.result(), "I18nTable MC")
-        chk.add_tlc(rm, "MC: lookup machine over every small catalog (Holds, FunctionAgrees)")
-        for f, (mod, cfgname, inv, what) in zip(f_neg, controls):
-            rn = f.result()
-            if rn.violated != inv:
-                raise vf.NoVerdict("negative control (%s): TLC did not reject it (%s %s)" % (what, rn.violated, rn.error))
-            chk.add_tlc(rn, "negative control: %s violates %s" % (what, inv), count_states=False)
+        rm = f_mc.result()
+        if "ControlBites" in (rm.error or "") or "ControlBites" in rm.stdout[-3000:]:
+            raise vf.NoVerdict("negative control: the lookup without the English fallback did not violate Holds")
+        vf.tlc_ok(rm, "I18nTable MC")
+        chk.add_tlc(rm, "MC: lookup machine over every small catalog (Holds, FunctionAgrees); the variant without the English fallback "
+                        "explored beside it violates Holds (POSTCONDITION ControlBites)")
         stage("model runs collected")
         # verdict
         byid = {s["id"]: s for s in sites}
